@@ -86,6 +86,18 @@ Example default_key_breaks_uniqueness :
   forallb (keys_ok true) dkids = false.
 Proof. vm_compute. repeat split; reflexivity. Qed.
 
+(** hence the uniqueness statement without a hypothesis on key defaults is false *)
+Theorem unique_history_needs_no_key_default :
+  ~ (forall kids ops tgt r,
+       forallb wf_schema kids = true -> forallb choice_free kids = true ->
+       shaped_kids shaped kids tgt = true -> keys_unique_content kids tgt = true ->
+       fold_left (fun acc o => match acc with Ok t => apply_op kids t o | Err e => Err e end) ops (Ok tgt) = Ok r ->
+       keys_unique_content kids r = true).
+Proof.
+  intros H. specialize (H dkids dops [Some (DList [])] dres eq_refl eq_refl eq_refl eq_refl eq_refl).
+  vm_compute in H. discriminate H.
+Qed.
+
 (** * counter-examples for the side conditions of model = spec (model on the left) *)
 
 (** delete by an unusable key on a key-less list: the model removes the first row, the filter all *)
